@@ -157,6 +157,86 @@ CLAIMS = {
     },
 }
 
+EV = ("evaluation of the function's expanded syntax tree on abstract inputs by the rule engine's own evaluator (vcheck/symeval.py; no rspirv code is "
+      "compiled into or executed by the check; unknown constructs fail closed)")
+
+# second phase (DESIGN.md 9.5): the deciding step of these rules is an evaluation on abstract inputs instead of a statement-shape match
+UPDATES = {
+    "C01": {"technique": "static analysis: composition of structural preconditions - codec table agreement, loader typestate table, append-only and cast census from MIR, "
+                         "traversal/assembly sequences and header handling by " + EV,
+            "text": "Decides the structural preconditions of the round trip on the current source: codec pairing (C02's rules), every accepted instruction moved into exactly one container and the "
+                    "loader's automaton (C05's rules), the loader only appends (MIR census), Module::assemble_into emits every container the loader writes, in logical-layout order, on an abstract "
+                    "module (C15's rules), parse_header/ModuleHeader::new/set_version/assemble_into evaluated on byte-lane words (bound = word 3, version bytes of word 1, five words in order), "
+                    "framing, no lossy narrowing cast between decoding and storing. The equality `for all accepted B` itself is not computed."},
+    "C03": {"technique": "static analysis: parse_header, parse_inst, parse_operands, parse_spec_constant_op and Decoder::words decided by " + EV + "; MIR field-write census; C14's rules",
+            "text": "parse_header on the four abstract outcomes of reading the header; parse_inst against a scripted decoder (no word / word count 0 / unknown opcode / operand error / words left / "
+                    "well-formed, word count 1 and 0x8421, at byte 0 and 1000) with results, error payloads and the set_limit-parse_operands-limit_reached-clear_limit bracket compared with the "
+                    "statement; parse_operands on all operand lists of length <= 3 over the three quantifiers x 0..4 words and on the five special rows; the single writer of the instruction "
+                    "counter; rejection of undeclared enumerants by every typed decoder method and parameter quantifiers by table rules. Small-scope evaluation, not a proof over all word values."},
+    "C04": {"technique": "static analysis: panic reachability - whole-workspace call graph from resolved MIR callees, census of assert terminators and may-panic std calls; each site discharged by "
+                         "an audit entry with a machine-checked reason, by interval analysis, or because its function is evaluated on all its abstract inputs without reaching a panic",
+            "text": "From the public entry points, every panic-capable construct in every reachable function (compiler-inserted overflow/bounds/division asserts, may-panic std calls, panic!/assert! "
+                    "expansions) must be discharged: by the evaluation of its function (Decoder requests incl. limits whose byte count overflows usize, parse_header, parse_inst at the smallest "
+                    "offset/word count, load_*, trackers, disas_ext_inst), by interval analysis of small operands, or by an audit entry whose guard/table fact/rule of C05/C09/C11 is re-derived on each "
+                    "run; every external callee must be classified; exactly one unsafe block whose from_raw_parts arguments are evaluated; progress of the operand loop; no recursion outside the "
+                    "module walk. Allocation failure, stack depth, panicking caller-supplied impls are outside the claim."},
+    "C05": {"technique": "static analysis: Loader::consume_instruction/finalize evaluated for all 787 opcodes x 4 typestates on a Loader value built from Loader::new() (" + EV + "); "
+                         "opcode predicates decided per opcode",
+            "text": "Extracts the loader's complete transition/outcome table (every opcode in every (function open, block open) state: error variant, or the single container the instruction value ends "
+                    "up in, objects created/handed over, next state) and compares it with the reference automaton of the property statement; also reachability of the bad state, absence of failing "
+                    "unwraps in reachable states, single move of the instruction. Exhaustive at the abstraction the statement uses."},
+    "C06": {"technique": "static analysis: every instruction-emitting Builder method summarised (generated ones by their template shape, hand-written ones by " + EV + ") and joined with the "
+                         "loader's table and the grammar table",
+            "text": "For every instruction-emitting Builder method: the container it emits into equals the container the loader files that opcode into in the corresponding state (R-SECT); "
+                    "the instruction it builds matches the opcode's grammar row operand for operand, with the parser's variants, quantifier forms and parameters in signature order, with every "
+                    "optional argument alone present/absent for hand-written methods (R-SLOT); names/docs tie methods to opcodes; set_version/version evaluated with the helpers inlined. "
+                    "Equality for all argument values is not computed."},
+    "C07": {"technique": "static analysis: every renderer (line format, module/function/block walks, operand renderer, typed literals, OpExtInst naming, header text, generator table) decided by "
+                         + EV + "; mask-bit name tables and Display arms (generated code) by table rules and pinned snapshot",
+            "text": "Line format holes and order; Module::disassemble on an abstract module (one instruction per section; complete function, function without definition but with parameters, "
+                    "unlabelled and empty blocks; with and without header) renders exactly header, every global (OpConstant typed after all of types_global_values was tracked), and per function "
+                    "definition, parameters, labels, instructions (OpExtInst named after all imports were tracked), end, joined by newlines; each of the 64 operand variants is rendered by the renderer "
+                    "the statement prescribes; mask name tables complete, in bit order, equal to the flag declarations and the snapshot; typed literal table; generator table. Global injectivity of "
+                    "the text is decided only through these necessary conditions."},
+    "C10": {"technique": "static analysis: parse_literal, TypeTracker::track/resolve/new and Parser::new decided by " + EV + " over all (type kind, width) classes and every operand list the "
+                         "grammar rows of OpTypeInt/OpTypeFloat allow; CFG dominance; statics census",
+            "text": "Width table of parse_literal for every equivalence class of (kind, width); what the tracker records for OpTypeInt/OpTypeFloat (with and without optional operands), typed and "
+                    "untyped instructions; resolve is a pure lookup; wiring of result type / selector id into parse_literal; each instruction is tracked before the next one is parsed; fresh empty "
+                    "tracker per parser and no mutable/interior-mutable/thread-local static; assembler/decoder word layout of 32/64-bit literals. The per-history statement is the composition of "
+                    "these clauses."},
+    "C11": {"technique": "static analysis: MIR who-may-write census of Decoder fields; word() over (limit class x remaining-bytes class) with linear offsets; string(), words(n), bit64 and the "
+                         "one-word requests by small-scope " + EV,
+            "text": "Only word()/string() advance the offset; word()'s outcome table; string() in every state of 0..13 bytes left x limit none/0..4/2^62/2^64-1 x first NUL at every position "
+                    "(padded or followed by non-zero bytes) x valid/invalid UTF-8 returns exactly the bytes before the NUL, advances by whole words within the buffer, charges the limit, never "
+                    "slices out of range or overflows, and reports LimitReached only when the limit ended the scan; words(n)/bit64/id/bit32 equal n successive word() requests stopping at the "
+                    "first failure; generated typed requests call word() once. A small scope with period-4 arithmetic, not a proof over all lengths."},
+    "C12": {"technique": "static analysis: small-scope evaluation of all public Builder methods over the selection typestate (" + EV + "), reachable-state closure, MIR who-may-write census",
+            "text": "All 1160+ public Builder methods are evaluated in every selection state reachable from Builder::new(), each state represented by concrete builders over <= 2 functions x <= 2 "
+                    "blocks, with Option<usize> arguments in {None, 0, 1, 9}, the four insert points and optional arguments absent/present: no panicking path, the invariant block-selected => "
+                    "function-selected-and-index-valid holds in every reachable state (violations are reported with the call history), the guard table of the statement holds cell by cell, and no "
+                    "Err path has modified the module's instructions. Offsets within the block are assumed as the statement says."},
+    "C13": {"technique": "static analysis: who-may-write census of Builder.next_id and census of Builder constructions from MIR; id(), new, new_from_module, module(), ModuleHeader::new by "
+                         + EV + "; id-source rule over every emitting method; decision table of the dedup branch",
+            "text": "Only id() writes next_id and only new/new_from_module/default construct a Builder (MIR); id() returns the pre-increment value; new starts at 1, new_from_module at the header "
+                    "bound, module() stores next_id as the bound; every emitted result id is the explicit id or one self.id() (no id allocated and dropped); each of the 33 implicit-type methods "
+                    "is the explicit/found/fresh three-way decision. Counter wrap-around and colliding caller-chosen ids are outside the claim."},
+    "C14": {"technique": "static analysis: Parser::parse evaluated against scripted consumers, header results and instruction streams (" + EV + "); who-may-call census and dominator rules on "
+                         "the MIR control-flow graph; load_*/parse_* entry points evaluated",
+            "text": "Exactly one call site per callback, in Parser::parse (resolved callees, whole crate); with every callback position answering continue/stop/error, header readable or not, "
+                    "streams of 0 or 2 instructions or a parse error at the first/second, the callbacks made and the result are exactly the protocol's (finalize only after completion, stop -> "
+                    "ConsumerStopRequested, error -> ConsumerError(value), parse errors returned as is, nothing called afterwards); protocol order by dominance for streams of any length; "
+                    "Action::consume table; single guarded construction site of State::Complete; load_* hand out the module only when parse_* returned Ok."},
+    "C15": {"technique": "static analysis: the six traversals and the assemble_into impls of Module/Function/Block decided by " + EV + " on abstract modules; struct declarations read for coverage",
+            "text": "On an abstract module with one distinct instruction in every declared section and four functions (complete; no definition but parameters with an unlabelled and an empty "
+                    "block; definition only; no definition/parameters), with and without header/memory model, every traversal visits and every assemble_into emits exactly the logical-layout "
+                    "sequence computed from the module value; mutable twins equal their read-only counterparts; header words in order."},
+    "C19": {"technique": "static analysis: MIR mutation census of Storage.data and Token construction sites, visibility facts, append/fetch_or_append/Index by " + EV},
+    "C20": {"technique": "static analysis: main() decided by " + EV + " with the file system, clap and load_bytes as hooks; panic reachability from main over the workspace call graph; totality of the "
+                         "error Display impls"},
+}
+for _k, _v in UPDATES.items():
+    CLAIMS[_k].update(_v)
+
 NA_REASON = "no check registered yet in this revision (work in progress; see DESIGN.md 8)"
 
 ALL = ["C%02d" % i for i in range(1, 21)]
@@ -198,14 +278,16 @@ def main():
              "kind_free_text": "rustc_private driver (RUSTC_WORKSPACE_WRAPPER under cargo +nightly check): MIR CFG, resolved call edges, "
                                "assert terminators, field writes/borrows, casts, unsafe blocks, discriminants, visibilities"},
             {"name": "vcheck", "path": "/verif/vcheck", "serves_properties": ALL,
-             "kind_free_text": "Python rule engine: per-property static rules over the extracted facts, oracles under /verif/spec"},
+             "kind_free_text": "Python rule engine: per-property static rules over the extracted facts (table rules, MIR censuses and CFG rules, and an evaluator "
+                               "of the expanded syntax tree on abstract inputs), oracles under /verif/spec"},
         ],
         "checks": checks,
         "not_applicable": na,
         "notes": "Technique family: static analysis only. Every check re-extracts facts from /repo's current working tree (cache keyed by "
                  "a content hash of all sources), never executes rspirv code, and reports file/function/instance for each violation. "
                  "Each check decides the structural clauses listed in DESIGN.md 3, not the run-time behaviour as a whole; clauses not "
-                 "decided are listed in DESIGN.md 4.",
+                 "decided are listed in DESIGN.md 4. Where a rule evaluates a function on abstract inputs (DESIGN.md 9.5) the evaluator is part of "
+                 "the rule engine and works on the extracted syntax tree; small integer scopes are stated in the evidence.",
     }
     with open(os.path.join(VERIF, "MANIFEST.json"), "w") as fh:
         json.dump(m, fh, indent=1)
